@@ -736,16 +736,19 @@ PROPS["C10"] = dict(
     runs={
         "quick": [dict(_ca, harness="VerifHarness_C10_quick", reach=["crashed-file", "crashed-all", "crashed-none", "no-crash"], validate=16),
                   dict(_ca, harness="VerifHarness_C10_ckpt", reach=["crashed-file", "crashed-all", "crashed-none", "no-crash", "checkpoint"], validate=16),
-                  dict(_ca, harness="VerifHarness_C10_dir", reach=["crashed-file", "crashed-none", "no-crash", "directive"], validate=16)],
+                  dict(_ca, harness="VerifHarness_C10_dir", reach=["crashed-file", "crashed-none", "no-crash", "directive"], validate=16),
+                  dict(_ca, harness="VerifHarness_C10_twice", reach=["crashed-twice"], validate=8)],
         "thorough": [dict(_ca, harness="VerifHarness_C10_thorough", reach=["crashed-file", "crashed-all", "crashed-none", "no-crash"], validate=24),
                      dict(_ca, harness="VerifHarness_C10_ckpt3", reach=["crashed-file", "crashed-all", "crashed-none", "no-crash", "checkpoint"], validate=24),
-                     dict(_ca, harness="VerifHarness_C10_dir3", reach=["crashed-file", "crashed-none", "no-crash", "directive"], validate=24)],
+                     dict(_ca, harness="VerifHarness_C10_dir3", reach=["crashed-file", "crashed-none", "no-crash", "directive"], validate=24),
+                     dict(_ca, harness="VerifHarness_C10_twice", reach=["crashed-twice"], validate=16)],
     },
     bounds={
         "quick": "directories of 1..2 files x 1..2 statements, --tx-mode {file, all, none}; the index of the store event at which the process dies "
                  "(transaction begin, statement execution, revision write, commit) is a symbolic integer over the whole run; then the same command is run again; "
                  "second family: the same with any one file (or none) tagged atlas:checkpoint; third family: global mode file or none with a per-file "
-                 "atlas:txmode directive (none / file / absent) on every file",
+                 "atlas:txmode directive (none / file / absent) on every file; fourth family: two crashes (the re-run dies too, both crash points symbolic) "
+                 "on one file of three statements in none mode, then a third run",
         "thorough": "same with up to 3 files",
     },
     assumptions=[
